@@ -47,18 +47,19 @@ let handle line =
         | Panic -> "PANIC model")
      | _ -> "newerr")
   | [_; "kwp"; kek; data; mu] ->
+    (* the API model of the totality theorems: NewKWP (KEK size rule) then Wrap / Unwrap *)
     let kek = unhex kek and data = unhex data in
-    if not (kwp_key_ok (nat_of_int (List.length kek))) then "newerr" else
-    let e = aes_enc kek and d = aes_dec kek in
-    (match kwp_wrap e data with
-     | Ok w ->
-       "W:" ^ hexs w ^ "|U:" ^ out_str (kwp_unwrap d w) ^ "|M:" ^ out_str (kwp_unwrap d (mutate mu w))
-     | Err ->
+    let unwrap c = match kwp_api_unwrap aes_dec kek c with Some r -> out_str r | None -> "newerr" in
+    (match kwp_api_wrap aes_enc kek data with
+     | None -> "newerr"
+     | Some (Ok w) ->
+       "W:" ^ hexs w ^ "|U:" ^ unwrap w ^ "|M:" ^ unwrap (mutate mu w)
+     | Some Err ->
        "W:err|U:skip|M:" ^
        (match String.split_on_char ':' mu with
-        | ["raw"; h] -> out_str (kwp_unwrap d (unhex h))
+        | ["raw"; h] -> unwrap (unhex h)
         | _ -> "skip")
-     | Panic -> "PANIC model")
+     | Some Panic -> "PANIC model")
   | [_; "katsiv"; key; ads; pt; _] ->
     (* RFC 5297 vectors: K = K1 || K2 of equal halves, any AES key size *)
     let key = unhex key in
